@@ -16,6 +16,7 @@ struct Counting;
 static LIVE_BLOCKS: AtomicIsize = AtomicIsize::new(0);
 static LIVE_BYTES: AtomicIsize = AtomicIsize::new(0);
 static ALLOCS: AtomicUsize = AtomicUsize::new(0);
+static EAGER: AtomicUsize = AtomicUsize::new(0);
 
 unsafe impl GlobalAlloc for Counting {
     unsafe fn alloc(&self, l: Layout) -> *mut u8 {
@@ -130,6 +131,15 @@ thread_local! {
 }
 
 fn out(s: String) {
+    // every observation is also written out at once ("> " prefix) so that the part of the trace that precedes a
+    // crash or abort is not lost; the complete block is printed again when the script ends
+    if EAGER.load(Ordering::Relaxed) != 0 {
+        use std::io::Write;
+        let so = std::io::stdout();
+        let mut l = so.lock();
+        let _ = writeln!(l, "> {}", s);
+        let _ = l.flush();
+    }
     OUT.with(|o| o.borrow_mut().push(s));
 }
 
@@ -638,6 +648,11 @@ fn main() {
     }
     let path = &args[1];
     let seed: u64 = args.get(2).map(|s| s.parse().unwrap()).unwrap_or(0);
+    if args.get(3).map(|s| s.as_str()) == Some("eager") {
+        // warm up stdout's buffer before any script is measured
+        println!("# eager");
+        EAGER.store(1, Ordering::Relaxed);
+    }
     std::panic::set_hook(Box::new(|_| {}));
     let text = std::fs::read_to_string(path).expect("read script");
     let all: Vec<String> = text.lines().map(|s| s.to_string()).collect();
